@@ -79,12 +79,12 @@ Section Walk.
       fs_compl_ivl_loop os oe L last lopen ropen ivs = (Ok st, []) ->
       let last' := fst (fst (fst st)) in let lopen' := snd (fst (fst st)) in
       let ropen' := snd (fst st) in let ivs' := snd st in
-      num_ok last' = true /\ forallb wf_set ivs' = true /\
+      num_ok last' = true /\ forallb wf_set ivs' = true /\ npos last' <p npos oe /\
       forall p, existsb (In_set p) ivs' || in_interval last' oe lopen' ropen' p
                 = (existsb (In_set p) ivs || in_interval last oe lopen ropen p) && negb (in_finite L p).
   Proof.
     induction L as [|a t IH]; intros last lopen ropen ivs st HL HS Hinv H; simpl in H.
-    - minv. simpl. destruct Hinv as [H1 [_ [_ [H4 _]]]]. split; [exact H1|split; [exact H4|]].
+    - minv. simpl. destruct Hinv as [H1 [_ [H3 [H4 _]]]]. split; [exact H1|split; [exact H4|split; [exact H3|]]].
       intro p. rewrite andb_true_r. reflexivity.
     - simpl in HL. apply andb_prop in HL. destruct HL as [Ha Ht].
       inversion HS as [|? ? HSt Hall]; subst.
@@ -100,7 +100,7 @@ Section Walk.
         assert (Hinv' : walk_inv t last ivs).
         { unfold walk_inv. split; [exact Hlast|split; [exact Hol|split; [exact Hle|split; [exact Hwf|split; [exact Hbelow|left; exact Hlo]]]]]. }
         specialize (IH last (if num_eqb a os then true else lopen) ropen ivs st Ht HSt Hinv' H).
-        destruct IH as [I1 [I2 I3]]. split; [exact I1|split; [exact I2|]].
+        destruct IH as [I1 [I2 [I2' I3]]]. split; [exact I1|split; [exact I2|split; [exact I2'|]]].
         intro p. rewrite I3. rewrite !Hnoivs. cbn [orb]. rewrite in_finite_cons', negb_orb, andb_assoc. f_equal.
         rewrite !in_interval_pos.
         destruct (at_pos a p) eqn:Ep; [apply at_pos_eq in Ep|];
@@ -110,7 +110,7 @@ Section Walk.
         all: try (assert (at_pos a p = true) by (apply at_pos_iff; pord); congruence).
       + destruct (num_eqb (nmax a oe) a) eqn:E2.
         * (* a >= end: break *)
-          apply eq_nmax_l in E2; auto. minv. cbn [fst snd]. split; [exact Hlast|split; [exact Hwf|]].
+          apply eq_nmax_l in E2; auto. minv. cbn [fst snd]. split; [exact Hlast|split; [exact Hwf|split; [exact Hle|]]].
           intro p.
           assert (Habove : forall b, In b (a :: t) -> npos oe <=p npos b).
           { intros b [<-|Hb]; [exact E2|]. rewrite Forall_forall in Hall. specialize (Hall b Hb). unfold ple_num in Hall. pord. }
@@ -161,7 +161,7 @@ Section Walk.
                     try (destruct lopen; simpl in Hp; discriminate); split; pord.
                 * destruct (Hbelow p Hp). split; pord.
               + right. intros b Hb. rewrite Forall_forall in Hall. exact (Hall b Hb). }
-          specialize (IH a true ropen x st Ht HSt Hinv' Hk). destruct IH as [I1 [I2 I3]]. split; [exact I1|split; [exact I2|]].
+          specialize (IH a true ropen x st Ht HSt Hinv' Hk). destruct IH as [I1 [I2 [I2' I3]]]. split; [exact I1|split; [exact I2|split; [exact I2'|]]].
           intro p. rewrite I3. rewrite (existsb_same_elems (In_set p) x _ Hse). cbn [existsb].
           rewrite interval_In; auto. rewrite in_finite_cons', negb_orb, andb_assoc. f_equal.
           destruct (existsb (In_set p) ivs) eqn:Ei.
